@@ -379,6 +379,9 @@ class Dimension:
         cls, dimension: "Dimension", name: str, symbol: Optional[str] = None
     ) -> "Dimension":
         """Registers a new named dimension derived from other dimension"""
+        if name in cls._by_name and cls._by_name[name] is not dimension:
+            raise ValueError(f"A dimension named {name} is already defined")
+
         dimension.name = name
         dimension.symbol = symbol or str(dimension)
         cls._by_name[name] = dimension
